@@ -61,9 +61,23 @@ PER_TENSOR = {"Callback", "WriteChunk", "OpenSrc", "ReleaseMap", "Invalidate", "
 # ----------------------------------------------------------------------------------------------
 # configurations
 # ----------------------------------------------------------------------------------------------
-def _cfg(nt, nc, dest="absent", backed=(), par=False, shard=False, pre=(), np=(), lim=None, other=(), ov=None, bv=None):
+def _cfg(nt, nc, dest="absent", backed=(), par=False, shard=False, pre=(), np=(), lim=None, other=(), ov=None, bv=None,
+         xdev=False):
     return F.norm_cfg({"nt": nt, "nc": nc, "dest": dest, "backed": list(backed), "par": par, "shard": shard,
-                       "pre": list(pre), "np": list(np), "lim": lim, "other": list(other), "ov": ov, "bv": bv})
+                       "pre": list(pre), "np": list(np), "lim": lim, "other": list(other), "ov": ov, "bv": bv, "xdev": xdev})
+
+
+def xdev_configs(tier: str, scratch: str) -> list:
+    """The destination is a symlink whose target lives on ANOTHER FILE SYSTEM than the directory the caller named
+    (a rename between the two fails with EXDEV); none when the machine offers no second writable file system."""
+    if F.xdev_root(scratch) is None:
+        return []
+    # (no tensor backed by the destination: onnx_ir refuses to READ through a link that leaves the base directory)
+    out = [_cfg(2, 2, "symlink", (), xdev=True), _cfg(1, 1, "symlink", (), np=(1,), xdev=True)]
+    if tier == "thorough":
+        out += [_cfg(3, 2, "symlink", (), par=True, xdev=True), _cfg(1, 2, "symlink", (), xdev=True),
+                _cfg(2, 1, "symlink", (), other=(2,), ov="b", xdev=True)]
+    return out
 
 
 def all_model_configs(max_t=3, max_c=2) -> list:
@@ -279,7 +293,8 @@ def cfg_kind(c: dict) -> str:
         exists = (c["dest"] != "absent") if one else bool(c["pre"])
         return (f"shard{'1' if one else 'N'}{'-plainfile' if c['dest'] != 'absent' else ''}"
                 f"{'-backed' if c['backed'] else ''}{_spelling(c)}{'-other' if c['other'] else ''}{'-pre' if exists else ''}")
-    return f"{c['dest']}{'-backed' if c['backed'] else ''}{_spelling(c)}{'-other' if c['other'] else ''}{'-par' if c['par'] else ''}"
+    return (f"{c['dest']}{'(other-fs)' if c.get('xdev') else ''}{'-backed' if c['backed'] else ''}{_spelling(c)}"
+            f"{'-other' if c['other'] else ''}{'-par' if c['par'] else ''}")
 
 
 def _spelling(c: dict) -> str:
@@ -615,7 +630,9 @@ def run(ctx):
 
     # ---- Python layer -----------------------------------------------------------------------
     t0 = time.time()
-    pcfgs = py_configs(ctx.tier)
+    xcf = xdev_configs(ctx.tier, ctx.scratch)
+    ctx.extra["cross_file_system_configurations"] = len(xcf) if xcf else "none: no second writable file system"
+    pcfgs = py_configs(ctx.tier) + xcf
     run0 = _pool_map(F.py_job, [{"cfg": c, "dir": os.path.join(base, f"py0-{i}")} for i, c in enumerate(pcfgs)], procs)
     jobs = []
     for i, (c, r0) in enumerate(zip(pcfgs, run0)):
@@ -644,7 +661,7 @@ def run(ctx):
     if not ok:
         ctx.note("syscall layer skipped (" + why + "); verdict rests on the Python layer only")
     else:
-        scfgs = sys_configs(ctx.tier)
+        scfgs = sys_configs(ctx.tier) + xcf
         s0 = _pool_map(F.sys_job, [{"cfg": c, "dir": os.path.join(base, f"sys0-{i}"), "mode": mode} for i, c in enumerate(scfgs)], procs)
         # a tracer that attached too late (loaded machine) misses the begin marker: such a run says nothing, repeat it
         for attempt in range(3):
